@@ -108,6 +108,11 @@ pub enum Shape {
     /// incompressible literals (the block ends up raw)
     Incompressible { n: u32 },
     FarOffsets { n: u8 },
+    /// the code histogram of one (or all) of offsets / literal lengths / match lengths is FLAT over
+    /// `k` codes (`per` sequences each) plus one sequence with a rare code: the shape that drives the
+    /// compressor's table normalisation to its largest sums (accuracy log limit 8 for offsets, 9 for
+    /// the lengths). which: 0 offsets, 1 literal lengths, 2 match lengths, 3 all three
+    FlatCodes { which: u8, first: u8, k: u8, per: u8 },
 }
 
 #[derive(Clone, Debug, Serialize, Deserialize)]
@@ -312,7 +317,13 @@ fn shape_strategy() -> impl Strategy<Value = Shape> {
         2 => (prop_oneof![1020u32..=1030, 16_380u32..=16_390, 1025u32..=60_000], 2u8..=200).prop_map(|(n, alpha)| Shape::ThresholdLiterals { n, alpha }),
         2 => (1100u32..=131_000).prop_map(|n| Shape::Incompressible { n }),
         2 => (1u8..=20).prop_map(|n| Shape::FarOffsets { n }),
+        3 => (0u8..=3, 0u8..=5, 6u8..=16, 2u8..=40).prop_map(|(which, first, k, per)| Shape::FlatCodes { which, first, k, per }),
     ]
+}
+
+pub fn flat_codes_strategy() -> impl Strategy<Value = Case> {
+    (10u8..=20, any::<u32>(), prop::collection::vec((0u8..=3, 0u8..=5, 6u8..=16, 2u8..=60).prop_map(|(which, first, k, per)| Shape::FlatCodes { which, first, k, per }), 1..=3), any::<u32>())
+        .prop_map(|(window_log, window_extra, blocks, seed)| Case::Generated(ParseCase { window_log, window_extra, blocks, seed, uncompressed_level: false }))
 }
 
 fn case_strategy(tier: Tier) -> impl Strategy<Value = Case> {
@@ -376,13 +387,17 @@ pub fn render(pc: &ParseCase) -> Script {
             push_lits(data, ll, r, alpha);
             let reach = (data.len() as u64).min(window) as usize;
             let off_sel = if off_sel == u64::MAX { r.next() % 6 } else { off_sel };
-            let off = match off_sel % 6 {
+            let off = if off_sel >= 1000 {
+                (off_sel - 1000) as usize
+            } else {
+                match off_sel % 6 {
                 0 => 1 + r.below(reach as u64) as usize,
                 1 => 1 + r.below(8.min(reach) as u64) as usize,
                 2 => reach,
                 3 => reach - r.below(4.min(reach) as u64) as usize,
                 4 => (1usize << r.below(20)).min(reach),
                 _ => 1 + r.below(reach as u64) as usize,
+                }
             }
             .clamp(1, reach);
             let at = data.len();
@@ -469,6 +484,32 @@ pub fn render(pc: &ParseCase) -> Script {
             Shape::Incompressible { n } => {
                 let n = (*n as usize).min(budget.saturating_sub(8));
                 add(&mut data, &mut r, n, 3, u64::MAX, 256, &mut seqs, &mut budget);
+            }
+            Shape::FlatCodes { which, first, k, per } => {
+                // history for the offsets: one literal run first
+                add(&mut data, &mut r, 6000.min(budget.saturating_sub(8)), 4, 1, 64, &mut seqs, &mut budget);
+                let k = (*k as u64).max(2);
+                let n = k * (*per as u64).max(1) + 1;
+                for i in 0..n {
+                    let rare = i + 1 == n;
+                    // the code this sequence contributes to each flat histogram (the last one: a code outside the set)
+                    let c = if rare { k + 1 } else { i % k };
+                    let flat_of = *which == 0 || *which == 3;
+                    let flat_ll = *which == 1 || *which == 3;
+                    let flat_ml = *which == 2 || *which == 3;
+                    let ll = if flat_ll { LL_TABLE[((*first as u64 + c) % 25) as usize].0 as usize } else { r.below(3) as usize };
+                    let ml = if flat_ml { ML_TABLE[((*first as u64 + c) % 40) as usize].0 as usize } else { 3 + r.below(3) as usize };
+                    let off_sel = if flat_of {
+                        // offset value = offset + 3 in [2^code, 2^(code+1))
+                        let code = 2 + (*first as u64 % 4) + c;
+                        1000 + ((1u64 << code) - 3 + r.below(1u64 << code)).max(1)
+                    } else {
+                        1
+                    };
+                    if !add(&mut data, &mut r, ll, ml, off_sel, 4, &mut seqs, &mut budget) {
+                        break;
+                    }
+                }
             }
             Shape::FarOffsets { n } => {
                 for _ in 0..*n {
@@ -577,6 +618,11 @@ pub fn check(case: &Case, ctx: &mut CaseCtx) -> CaseResult {
                 let got: Vec<Seq> = b.seq.as_ref().map(|q| q.seqs.iter().map(|x| Seq { ll: x.ll, ml: x.ml, off: x.offset }).collect()).unwrap_or_default();
                 ensure!(got == s.seqs, "sequences_differ", "block #{i}: emitted {} sequences, scripted {} (first difference at #{})", got.len(), s.seqs.len(), got.iter().zip(s.seqs.iter()).take_while(|(a, b)| a == b).count());
                 ctx.feat("block:compressed");
+                if let Some(q) = &b.seq {
+                    ctx.feat_if(q.modes[0] == 2 && q.logs[0] == 9, "tables:ll_description_at_the_limit_(log_9)");
+                    ctx.feat_if(q.modes[1] == 2 && q.logs[1] == 8, "tables:of_description_at_the_limit_(log_8)");
+                    ctx.feat_if(q.modes[2] == 2 && q.logs[2] == 9, "tables:ml_description_at_the_limit_(log_9)");
+                }
             } else {
                 ctx.feat(if b.btype == 0 { "block:raw_fallback" } else { "block:rle" });
             }
